@@ -31,7 +31,7 @@ import (
 // ---------------------------------------------------------------- keys
 
 type kspec struct {
-	kind  byte // I C Y S A N(int = symbol number of name) F(int = fnv32 code of string)
+	kind  byte // I C Y S A N(int = symbol number of name) F(int = fnv32 code of string) M(char = symbol number of name)
 	i     int64
 	s     string
 	elems []kspec
@@ -47,7 +47,7 @@ func build(env *zygo.Zlisp, k kspec) zygo.Sexp {
 		return env.MakeSymbol(k.s)
 	case 'S':
 		return &zygo.SexpStr{S: k.s}
-	case 'N', 'F':
+	case 'N', 'F', 'M':
 		var probe zygo.Sexp = env.MakeSymbol(k.s)
 		if k.kind == 'F' {
 			probe = &zygo.SexpStr{S: k.s}
@@ -55,6 +55,9 @@ func build(env *zygo.Zlisp, k kspec) zygo.Sexp {
 		code, err := zygo.HashExpression(nil, probe)
 		if err != nil {
 			panic(err)
+		}
+		if k.kind == 'M' {
+			return &zygo.SexpChar{Val: rune(code)}
 		}
 		return &zygo.SexpInt{Val: int64(code)}
 	case 'A':
@@ -185,6 +188,7 @@ func ch(c rune) kspec        { return kspec{kind: 'C', i: int64(c)} }
 func arr(e ...kspec) kspec   { return kspec{kind: 'A', elems: e} }
 func symnum(s string) kspec  { return kspec{kind: 'N', s: s} }
 func fnvcode(s string) kspec { return kspec{kind: 'F', s: s} }
+func symchar(s string) kspec { return kspec{kind: 'M', s: s} }
 
 // universe A = the property's: 2 symbols, 2 strings, 2 ints, a char equal to an int, a one-element
 // array, an int equal to a symbol's number (colliding code, different key)
@@ -205,6 +209,10 @@ var univJ = []kspec{sym("a"), str("a"), in(1), str("1"), ch('x'), str("'x'")}
 
 // universe W = two keys, values that compare equal to each other without being the same value
 var univW = []kspec{sym("a"), in(1)}
+
+// universe D = one bucket, three spellings: a symbol, the int with the symbol's number (same code,
+// another key) and the char with that number (same code, the SAME key as the int)
+var univD = []kspec{sym("a"), symnum("a"), symchar("a")}
 
 // ---------------------------------------------------------------- operations
 
@@ -438,6 +446,8 @@ func (d *scriptDriver) call(name string, args ...arg) (zygo.Sexp, int) {
 	for _, a := range args {
 		switch a.kind {
 		case 'k':
+			// every call passes its own key object, as a script that spells the key out does
+			d.env.AddGlobal("k"+strconv.Itoa(a.k), build(d.env, d.u.specs[a.k]))
 			src += " k" + strconv.Itoa(a.k)
 		case 'i':
 			src += " " + strconv.FormatInt(a.i, 10)
@@ -757,7 +767,7 @@ type replayFile struct {
 func main() {
 	a := lib.ParseArgs()
 	out := lib.NewOut(a.Out)
-	out.Rule = "universe A (9 keys: symbols a b, strings s t, ints 1 97, char 'a' (= 97), array [1], int = symbol number of a), universe B (9 keys: arrays [1 97] [1 'a'] [97] ['a'] [], 97, 'a', string s, int = fnv code of s), universe C (5 keys: 1 [1] [[1]] [[1 2]] [1 2]), universe J (6 keys: symbol a, string a, int 1, string 1, char x, string 'x' -- different keys spelled alike), universe W (2 keys a 1 with the mutually Compare-equal values 97, 'a', 97.0, two hashes, two arrays [1]) and universe V (3 keys a s 1 with the values fresh-int, 0, nil, false, empty string, []): ALL histories of hset/hdel (fresh value per step) up to the length bound, each observed after its last step (so after every step of every history); the key list and every positional pair taken after EVERY intermediate step are held and must read the same at the end, and overwriting the handed-out containers must not change the hash; random long histories observed after every step; a case is non-trivial when the history has at least 2 operations; distinct = distinct (mode, universe, history) inputs"
+	out.Rule = "universe A (9 keys: symbols a b, strings s t, ints 1 97, char 'a' (= 97), array [1], int = symbol number of a), universe B (9 keys: arrays [1 97] [1 'a'] [97] ['a'] [], 97, 'a', string s, int = fnv code of s), universe C (5 keys: 1 [1] [[1]] [[1 2]] [1 2]), universe J (6 keys: symbol a, string a, int 1, string 1, char x, string 'x' -- different keys spelled alike), universe W (2 keys a 1 with the mutually Compare-equal values 97, 'a', 97.0, two hashes, two arrays [1]) and universe V (3 keys a s 1 with the values fresh-int, 0, nil, false, empty string, []): ALL histories of hset/hdel (fresh value per step) up to the length bound, each observed after its last step (so after every step of every history); the key list and every positional pair taken after EVERY intermediate step are held and must read the same at the end, and overwriting the handed-out containers must not change the hash; random long histories observed after every step; mode O: every call passes a freshly built key object labelled with an identity, any key (atom or array of != 1 atoms) also in its one-element array form [k]; ALL histories of (hset|hdel) x key x (plain|array form) over universe D (3 keys in one bucket: symbol a, int = a's symbol number, char = a's symbol number) and A, B, C up to the recorded bounds plus random long ones, observing also both lookups with [k], the identities of the objects handed out and the bucket map / KeyOrder / NumKeys themselves; a case is non-trivial when the history has at least 2 operations; distinct = distinct (mode, universe, history) inputs"
 	env := zygo.NewZlisp()
 	env.StandardSetup()
 	dflt := &zygo.SexpStr{S: "DFLT"}
@@ -776,7 +786,8 @@ func main() {
 	uV := mkU("V", univV)
 	uW := mkU("W", univW)
 	uJ := mkU("J", univJ)
-	unis := map[string]*universe{"A": uA, "B": uB, "C": uC, "V": uV, "W": uW, "J": uJ}
+	uD := mkU("D", univD)
+	unis := map[string]*universe{"A": uA, "B": uB, "C": uC, "V": uV, "W": uW, "J": uJ, "D": uD}
 
 	var cur *universe
 	use := func(u *universe) {
@@ -789,6 +800,15 @@ func main() {
 	}
 	ad := &applyDriver{base: base{env: env, dflt: dflt}, fns: map[string]*zygo.SexpFunction{}}
 	sd := &scriptDriver{base: base{env: env, dflt: dflt}}
+	or := &objRun{env: env, ad: ad}
+	emitO := func(ops []oop) {
+		impl := or.run(cur, ops)
+		input := "O " + cur.id
+		if len(ops) > 0 {
+			input += " " + oopsString(ops)
+		}
+		out.Case(input, impl, len(ops) >= 2, "mode:O", "universe:"+cur.id, "len:"+strconv.Itoa(len(ops)))
+	}
 	var emitC func(mode string, ops []op, ctor int)
 	emit := func(mode string, ops []op) { emitC(mode, ops, 0) }
 	emitC = func(mode string, ops []op, ctor int) {
@@ -824,10 +844,14 @@ func main() {
 		}
 		for _, inp := range inputs {
 			f := strings.Fields(inp)
-			if len(f) < 2 || unis[f[1]] == nil || (f[0] != "A" && f[0] != "S") {
+			if len(f) < 2 || unis[f[1]] == nil || (f[0] != "A" && f[0] != "S" && f[0] != "O") {
 				continue
 			}
 			use(unis[f[1]])
+			if f[0] == "O" {
+				emitO(parseOops(f[2:]))
+				continue
+			}
 			var ops []op
 			ctor := 0
 			for _, t := range f[2:] {
@@ -924,8 +948,58 @@ func main() {
 	all("A", exV)
 	all("S", exS)
 
+	// mode O: fresh key objects, array forms, object identities and the bookkeeping itself
+	exOD, exOA, exOB, exOC := 4, 3, 2, 3
+	if a.Tier == "thorough" {
+		exOD, exOA, exOB, exOC = 5, 3, 3, 4
+	}
+	var enumO func(prefix []oop, depth int)
+	enumO = func(prefix []oop, depth int) {
+		if depth == 0 {
+			emitO(prefix)
+			return
+		}
+		v := int64(len(prefix) + 1)
+		for k, ks := range cur.specs {
+			for _, w := range []bool{false, true} {
+				if w && !canWrap(ks) {
+					continue
+				}
+				enumO(append(prefix[:len(prefix):len(prefix)], oop{k: k, wrap: w, v: v}), depth-1)
+				enumO(append(prefix[:len(prefix):len(prefix)], oop{del: true, k: k, wrap: w}), depth-1)
+			}
+		}
+	}
+	allO := func(u *universe, bound int) {
+		use(u)
+		for d := 0; d <= bound; d++ {
+			enumO(nil, d)
+		}
+	}
+	allO(uD, exOD)
+	allO(uA, exOA)
+	allO(uB, exOB)
+	allO(uC, exOC)
+
 	// random long histories, observed after every step; deletes are biased to live keys
 	rng := lib.NewRng(a.Seed)
+	for n := 0; n < nRand/2; n++ {
+		u := []*universe{uD, uA, uB, uC, uJ}[n%5]
+		use(u)
+		L := 5 + rng.Intn(randLen)
+		nk := 2 + rng.Intn(len(u.keys)-1)
+		var ops []oop
+		for i := 0; i < L; i++ {
+			k := rng.Intn(nk)
+			w := rng.Intn(3) == 0 && canWrap(u.specs[k])
+			if rng.Intn(10) < 4 {
+				ops = append(ops, oop{del: true, k: k, wrap: w})
+			} else {
+				ops = append(ops, oop{k: k, wrap: w, v: int64(i + 1)})
+			}
+			emitO(ops)
+		}
+	}
 	for n := 0; n < nRand; n++ {
 		u := uA
 		if n%4 == 3 {
@@ -987,6 +1061,8 @@ func main() {
 	out.Extra["exhaustive_length_universe_C_applied"] = exC
 	out.Extra["exhaustive_length_universe_V_applied"] = exV
 	out.Extra["exhaustive_length_script"] = exS
+	out.Extra["exhaustive_length_objects_universe_D_A_B_C"] = []int{exOD, exOA, exOB, exOC}
+	out.Extra["random_object_histories"] = nRand / 2
 	out.Extra["random_histories"] = nRand
 	out.Extra["random_max_length"] = randLen + 4
 	out.Close(a.Stats)
